@@ -1,5 +1,6 @@
 from __future__ import annotations
 
+import re
 from enum import Enum
 from typing import TYPE_CHECKING
 
@@ -16,6 +17,8 @@ if TYPE_CHECKING:
 
 CHECK_NAMESPACES = False  # can be used to enable additional checks for too many namespaces or undefined namespaces
 
+
+_XML_INCOMPATIBLE_CHARS = re.compile('[^\t\n\r\x20-\ud7ff\ue000-\ufffd\U00010000-\U0010ffff]')
 
 class SoapResponseError(Exception):
     """Exception raised when Response could not be processed."""
@@ -154,7 +157,8 @@ class Fault(MessageType):
         """Add reason text to list."""
         txt = reasontext()
         txt.lang = lang
-        txt.text = text
+        # the text often quotes data of the request (a path element, a value): keep only characters that xml can carry
+        txt.text = _XML_INCOMPATIBLE_CHARS.sub('?', text)
         self.Reason.Text.append(txt)
 
     def set_sub_code(self, sub_code: etree.QName):
